@@ -317,20 +317,25 @@ func damageOne(r *rand.Rand, gitDir, oid string, contents map[string][]byte, pro
 	if r.Float64() >= p {
 		return damage{}, false
 	}
+	return applyDamage(r, gitDir, oid, damageKinds[r.Intn(len(damageKinds))], contents, objs), true
+}
+
+// applyDamage damages the (currently intact) local object oid in the given way, always by replacing
+// or deleting the file. It draws from r exactly what the former inline code of damageOne drew.
+func applyDamage(r *rand.Rand, gitDir, oid, kind string, contents map[string][]byte, objs []string) damage {
 	path := sbx.ObjectPath(gitDir, oid)
 	orig, err := os.ReadFile(path)
 	if err != nil {
 		panic(err)
 	}
 	fi, _ := os.Stat(path)
-	kind := damageKinds[r.Intn(len(damageKinds))]
 	var nb []byte
 	switch kind {
 	case "deletion":
 		if err := os.Remove(path); err != nil {
 			panic(err)
 		}
-		return damage{Oid: oid, Kind: kind}, true
+		return damage{Oid: oid, Kind: kind}
 	case "truncation":
 		nb = append([]byte{}, orig[:r.Intn(len(orig))]...)
 	case "extension":
@@ -361,5 +366,5 @@ func damageOne(r *rand.Rand, gitDir, oid string, contents map[string][]byte, pro
 	if err := sbx.WriteReplace(path, nb, fi.Mode().Perm()); err != nil {
 		panic(err)
 	}
-	return damage{Oid: oid, Kind: kind, NewSha: sbx.Sha256Hex(nb), NewLen: len(nb)}, true
+	return damage{Oid: oid, Kind: kind, NewSha: sbx.Sha256Hex(nb), NewLen: len(nb)}
 }
